@@ -17,6 +17,7 @@ package main
 
 import (
 	"context"
+	"errors"
 	"fmt"
 	"os"
 	"runtime"
@@ -71,13 +72,18 @@ func (e event) String() string {
 type message struct{ label, raw string }
 
 type hTicker struct {
-	c chan time.Time
-	d time.Duration
+	c  chan time.Time
+	d  time.Duration // the period the code asked for (NewTicker, later Reset): the harness fires the ticker at this period
+	mu *sync.Mutex
 }
 
 func (t *hTicker) Chan() <-chan time.Time { return t.c }
-func (t *hTicker) Reset(time.Duration)    {}
-func (t *hTicker) Stop()                  {}
+func (t *hTicker) Reset(d time.Duration) {
+	t.mu.Lock()
+	t.d = d
+	t.mu.Unlock()
+}
+func (t *hTicker) Stop() {}
 
 type node struct {
 	w        *world
@@ -97,14 +103,15 @@ type node struct {
 }
 
 type world struct {
-	mu      sync.Mutex
-	now     time.Time
-	nslots  int
-	incs    []int   // incarnations started per slot
-	cur     []*node // current incarnation per slot (nil = never started)
-	all     []*node
-	trigger string // label for the publish the harness is about to provoke
-	topic   string
+	mu       sync.Mutex
+	now      time.Time
+	nslots   int
+	incs     []int   // incarnations started per slot
+	cur      []*node // current incarnation per slot (nil = never started)
+	all      []*node
+	trigger  string // label for the publish the harness is about to provoke
+	topic    string
+	failNext bool // the next Publish is refused by the broker (event "refail")
 }
 
 // clock handle of one node
@@ -118,7 +125,7 @@ func (c nodeClock) Now() time.Time {
 func (c nodeClock) Since(t time.Time) time.Duration { return c.Now().Sub(t) }
 func (c nodeClock) Until(t time.Time) time.Duration { return t.Sub(c.Now()) }
 func (c nodeClock) NewTicker(d time.Duration) clockwork.Ticker {
-	t := &hTicker{c: make(chan time.Time), d: d}
+	t := &hTicker{c: make(chan time.Time), d: d, mu: &c.n.w.mu}
 	c.n.w.mu.Lock()
 	c.n.tickers = append(c.n.tickers, t)
 	c.n.w.mu.Unlock()
@@ -154,6 +161,13 @@ func (b nodeBus) Subscribe(ctx context.Context, topic string, cb pubsub.Subscrip
 func (b nodeBus) Publish(ctx context.Context, topic, msg string) error {
 	w := b.n.w
 	w.mu.Lock()
+	if w.failNext {
+		// the broker refuses this publish: nothing is delivered and the caller gets the error
+		w.failNext = false
+		w.mu.Unlock()
+		b.n.pubSig <- struct{}{}
+		return errors.New("verif: publish refused")
+	}
 	if b.n.netUp {
 		for _, s := range w.cur {
 			if s != nil && s.alive && w.topic == topic {
@@ -333,7 +347,7 @@ func (w *world) apply(step int, e event) *seqx.Failure {
 			ev.Harness("C18: start of running slot %d", e.N)
 		}
 		w.start(e.N)
-	case "refresh", "stop", "crash", "deliver":
+	case "refresh", "refail", "stop", "crash", "deliver":
 		n := w.cur[e.N]
 		if n == nil || !n.alive {
 			ev.Harness("C18: %v on a slot that is not running", e)
@@ -341,6 +355,25 @@ func (w *world) apply(step int, e event) *seqx.Failure {
 		switch e.Op {
 		case "refresh":
 			w.refresh(n)
+		case "refail":
+			w.mu.Lock()
+			w.failNext = true
+			w.mu.Unlock()
+			w.refresh(n)
+			// what the loop does with the error comes after the Publish the harness has just seen: a rendezvous on
+			// the loop's other (report) ticker returns only when the loop is back in its select, i.e. when the
+			// error has been handled completely (the report itself only reads the table)
+			w.mu.Lock()
+			lt := n.tickers[1]
+			now := w.now
+			w.mu.Unlock()
+			t := time.NewTimer(horizon)
+			select {
+			case lt.c <- now:
+			case <-t.C:
+				ev.Harness("C18: the Ready loop of %s did not come back to its select after a refused publish", n.tag)
+			}
+			t.Stop()
 		case "stop":
 			w.halt(n, true)
 		case "crash":
@@ -447,18 +480,30 @@ func (w *world) canon() string {
 	return sb.String()
 }
 
+// jitterRange: the period the node's refresh ticker currently has, as a range. The documented period is
+// baseInt plus a random jitter of up to 20% (the jitter is math/rand's, not the harness's: only its range is
+// known, and both ends are explored). A period that is k times a documented one (k > 1: not documented; only a
+// changed implementation asks for it) is treated the same way, so that runs stay comparable.
 func jitterRange(n *node) (lo, hi time.Duration, documented bool) {
+	n.w.mu.Lock()
 	d := n.tickers[0].d
-	if d >= baseInt && d < baseInt+baseInt/5 {
-		return baseInt, baseInt + baseInt/5 - 1, true
+	n.w.mu.Unlock()
+	for k := time.Duration(1); k <= 8; k++ {
+		if d >= k*baseInt && d < k*(baseInt+baseInt/5) {
+			return k * baseInt, k*(baseInt+baseInt/5) - 1, k == 1
+		}
 	}
 	return d, d, false
 }
 func intervalClass(n *node) string {
-	if _, _, ok := jitterRange(n); ok {
+	lo, hi, ok := jitterRange(n)
+	if ok {
 		return "jittered"
 	}
-	return n.tickers[0].d.String()
+	if lo != hi {
+		return fmt.Sprintf("%dx-jittered", lo/baseInt)
+	}
+	return lo.String()
 }
 
 // ---------------------------------------------------------------------------------------------
@@ -522,6 +567,20 @@ func enabled(nslots, maxStarts int, h []event) []event {
 	for s := 0; s < nslots; s++ {
 		if a.alive[s] {
 			out = append(out, event{Op: "refresh", N: s})
+		}
+	}
+	// a refresh whose publish the broker refuses (a fault; at most two per history)
+	nfail := 0
+	for _, e := range h {
+		if e.Op == "refail" {
+			nfail++
+		}
+	}
+	if nfail < 2 {
+		for s := 0; s < nslots; s++ {
+			if a.alive[s] {
+				out = append(out, event{Op: "refail", N: s})
+			}
 		}
 	}
 	for s := 0; s < nslots; s++ {
@@ -838,6 +897,8 @@ func main() {
 			Enabled:  func(h []event) []event { return enabled(s.nodes, s.starts, h) },
 			Exec:     func(h []event) (string, string, *seqx.Failure) { return exec(r, s.nodes, h) },
 			MaxDepth: s.depth, Workers: 16,
+			// every history of length <= 5 is executed whatever the canonical key says
+			NoMergeDepth: 4,
 		})
 	}
 	var oc []string
